@@ -77,7 +77,16 @@ pub fn guarded<F: FnOnce() -> String + std::panic::UnwindSafe>(f: F) -> String {
 }
 
 pub fn quiet_panics() {
-    std::panic::set_hook(Box::new(|_| {}));
+    // VH_PANIC_MSG=1: one line per panic on stderr (where it happened), for diagnosis
+    if std::env::var_os("VH_PANIC_MSG").is_some() {
+        std::panic::set_hook(Box::new(|info| {
+            let loc = info.location().map(|l| format!("{}:{}", l.file(), l.line())).unwrap_or_default();
+            let msg = info.payload().downcast_ref::<&str>().map(|s| s.to_string()).or_else(|| info.payload().downcast_ref::<String>().cloned()).unwrap_or_default();
+            eprintln!("panicked at {}: {}", loc, msg.lines().next().unwrap_or(""));
+        }));
+    } else {
+        std::panic::set_hook(Box::new(|_| {}));
+    }
 }
 
 // ---------------------------------------------------------------------------------------
